@@ -1369,11 +1369,15 @@ impl TryFrom<&str> for AddressAssignment {
 
         if let Some(cap) = DIRECT_ADDRESS.captures(value) {
             let location_prefix = LocationPrefix::try_from(&cap[1])?;
-            let size_prefix = SizePrefix::try_from(&cap[2])?;
+            // The size prefix is optional, so the group does not participate in every match
+            let size_prefix = SizePrefix::try_from(cap.get(2).map_or("", |m| m.as_str()))?;
+            // The regular expression's digit class also matches non-ASCII digits, which
+            // are not valid address components.
             let pos: Vec<u32> = cap[3]
                 .split('.')
-                .map(|v| v.parse::<u32>().unwrap())
-                .collect();
+                .map(|v| v.parse::<u32>())
+                .collect::<Result<Vec<u32>, _>>()
+                .map_err(|_e| "Address component is not a valid number")?;
 
             return Ok(AddressAssignment {
                 location: location_prefix,
